@@ -228,6 +228,9 @@ func calcPositionIfNeededAvc(pkt *RtpPacket) {
 	if outerNaluType <= NaluTypeAvcSingleMax {
 		pkt.positionType = PositionTypeSingle
 		return
+	} else if outerNaluType == NaluTypeAvcFua && len(b) < 2 {
+		// 没有FU header，无效包，positionType保持未设置
+		Log.Errorf("invalid FU-A packet, too short. header=%+v, len=%d", pkt.Header, len(b))
 	} else if outerNaluType == NaluTypeAvcFua {
 
 		// rfc3984 5.8.  Fragmentation Units (FUs)
@@ -300,6 +303,12 @@ func calcPositionIfNeededHevc(pkt *RtpPacket) {
 	if outerNaluType < NaluTypeHevcAp {
 		// [0, 47]都是nal自身的类型(包括保留类型)，[48, 63]才是rtp层的类型
 		pkt.positionType = PositionTypeSingle
+		return
+	}
+
+	if len(b) < 2 || (outerNaluType == NaluTypeHevcFua && len(b) < 3) {
+		// nal头部2字节，FU还有1字节的FU header，长度不够是无效包，positionType保持未设置
+		Log.Errorf("invalid hevc rtp packet, too short. header=%+v, len=%d", pkt.Header, len(b))
 		return
 	}
 
